@@ -73,7 +73,12 @@ class _RequestHandler:
                 # too deeply nested structures or too big integers
                 raise _RequestFormatError(format(e))
             self.logger.debug("Delivering request")
-            response = self.protocol.handle_request(request)
+            try:
+                response = self.protocol.handle_request(request)
+            except RecursionError as e:
+                # A request can be nested just shallow enough to be parsed
+                # and still too deep to be handled (e.g. logged)
+                raise _RequestFormatError(format(e))
             self.logger.debug("Got response: %s", response)
         except (json.decoder.JSONDecodeError, _RequestFormatError) as e:
             self.logger.debug("JSON error: %s", e)
